@@ -36,6 +36,9 @@ def make_handler(name):
             if req.get("more"):
                 return [{"continues": True, "parameters": {"i": i}} for i in range(n)] + [{"parameters": {"i": n}}]
             return [{"parameters": {"i": n}}]
+        if m == name + ".Bye":
+            # reply, then hang up right behind it
+            return [{"parameters": {"echo": "y" * int((p or {}).get("n", 0)), "svc": name}}, "close"]
         if m == name + ".Upgrade":
             state["echo"] = lambda b: b.swapcase()
             return ("upgrade", {"parameters": {}})
@@ -207,7 +210,7 @@ def main(tier, replay):
     ctx = vlib.Ctx("C18", tier, "exploration")
     ctx.rule = ("bridge modes {resolver lookup with -R, --connect ADDRESS, --activate CMD, --bridge CMD (a bridge through a second bridge)} x request sequences over three scripted services (plain, streaming, upgrade-capable; the bridge has to switch targets) "
                 "or the standard service x client behaviours {one at a time, pipelined in one write, random segmentation} x upgraded sessions with 0 B-64 KiB payload sent after the upgrade reply or in the same write as the request; the client keeps its side open until every expected reply arrived, "
-                "then closes and the bridge must exit 0; distinct = (mode, sequence, behaviour, payload class); non-trivial = >=2 target services or an upgrade")
+                "then closes and the bridge must exit 0; services that hang up right behind a reply of 0 B-1 MB while the client reads at once or 0.4 s later; distinct = (mode, sequence, behaviour, payload class); non-trivial = >=2 target services or an upgrade")
     ctx.assumptions.append("requests for interfaces no service implements and method names without a dot have no 'direct' counterpart and are not generated; the scripted services are stateless (the bridge opens a service connection per request)")
     ctx.assumptions.append("termination is bounded: 20 s after the client closed its side; a hang is re-run three times and only a reproducible one is a violation")
     vh = vlib.build_harness("hooks")
@@ -265,6 +268,14 @@ def main(tier, replay):
                 last = rng.pick(ifs)
                 seq.append((last, {"method": last + ".Echo", "parameters": {"v": "LAST%d" % i}, "oneway": rng.chance(1, 2)}))
                 close_early_case(ctx, mode, cmd, seq, table, svcs, rng)
+        # the service hangs up right behind its reply while the client keeps its side open and
+        # is slow to read: every reply byte the service wrote must still reach the client
+        for mode, cmd in modes.items():
+            if mode == "activate":
+                continue  # the standard service never hangs up first
+            for i in range(12 if tier == "quick" else 200):
+                n = [0, 30, 9000, 70000, 200000, 1000000][i % 6]
+                hangup_case(ctx, mode, cmd, "org.example.a", n, 0.0 if i % 2 else 0.4, svcs)
         if std.poll() is not None:
             ctx.inconc({"standard service died": std.returncode})
         return ctx.finish(60 if tier == "quick" else 3000)
@@ -417,6 +428,37 @@ def case(ctx, mode, cmd, seq, beh, pay, same_write, table, resolver, std_addr, s
             ctx.sample(dict(desc, exit=rc, frames=len(got_v)))
     finally:
         b.kill()
+
+
+def hangup_case(ctx, mode, cmd, name, n, read_delay, svcs):
+    req = {"method": name + ".Bye", "parameters": {"n": n}}
+    want = {"parameters": {"echo": "y" * n, "svc": name}}
+    for s in svcs.values():
+        s.clear()
+    b = Bridge(cmd)
+    b.write(json.dumps(req).encode() + b"\0")
+    if read_delay:
+        time.sleep(read_delay)
+    frames = b.read_frames(1, timeout=20)
+    # whatever else the bridge writes before it exits
+    t0 = time.time()
+    while b.p.poll() is None and not b.eof and time.time() - t0 < 3:
+        b.pump(0.1)
+    partial = b.buf
+    rc, left = b.close_and_wait()
+    ctx.case((mode, "service-hangs-up", n, read_delay))
+    ctx.count("service_hangs_up_sessions")
+    desc = {"engine": "c18", "mode": mode, "behaviour": "service-hangs-up-behind-its-reply", "reply_bytes": len(json.dumps(want)), "client_read_delay_s": read_delay, "cmd": cmd[1:]}
+    got = None
+    if frames:
+        try:
+            got = json.loads(frames[0].decode())
+        except ValueError:
+            got = None
+    ctx.count("reply_frames_observed", len(frames))
+    if got != want:
+        have = len(frames[0]) if frames else max(len(partial), len(left))
+        ctx.violation("c18:%s:reply-truncated-when-service-hangs-up" % mode, dict(desc, message="the service wrote a %d-byte reply and closed; the client received %d bytes of it (bridge exit status %s)" % (len(json.dumps(want)) + 1, have, rc), stderr=b.err.decode("utf-8", "replace")[-300:]))
 
 
 def close_early_case(ctx, mode, cmd, seq, table, svcs, rng):
